@@ -95,6 +95,17 @@ func EngineFamily(level int) []*prog.Program {
 	return ps
 }
 
+// CancelFamily: the programs Engine.tla is model-checked on with cancellation enabled at every
+// point: several tokens on their way to one node (the inbox bound), a join half full, tasks.
+func CancelFamily() []*prog.Program {
+	var ps []*prog.Program
+	gen.MergedArrival = true
+	ps = append(ps, gen.GatewayTable("xor", 1, -1, 2, -1))
+	gen.MergedArrival = false
+	ps = append(ps, gen.ParallelNM(2, 1, false), funnel("end", 4), funnel("and", 4), gen.GatewayTable("xor", 1, 0, 1, -1))
+	return ps
+}
+
 // FamilyMain: vh family <name> <out.json>
 func FamilyMain(args []string) int {
 	if len(args) < 2 {
@@ -109,6 +120,8 @@ func FamilyMain(args []string) int {
 		ps = EngineFamily(1)
 	case "double":
 		ps = []*prog.Program{DoubleArrival()}
+	case "cancel":
+		ps = CancelFamily()
 	default:
 		return 2
 	}
